@@ -13,6 +13,7 @@ LEAN_MODULES = ["B2Z.Props.C03"]
 THEOREMS = [
     "B2Z.Pipe.C03_order_invariant", "B2Z.Pipe.C03_decomposition_invariant", "B2Z.Pipe.C03_chunks_only_change_grid",
     "B2Z.Pipe.C03_config_invariant", "B2Z.Pipe.C03_max_chunks_prefix", "B2Z.Pipe.C01_pipeline_refines_spec",
+    "B2Z.Checks.C03_file_order_invariant",
 ]
 ASSUMPTIONS = [
     "PARTIAL: byte determinism of Blosc/zarr and the OS scheduler are outside the model: byte identity of repeated runs is observed, not proved",
